@@ -31,18 +31,21 @@ theorem exIds : TxIdsAgree exChain exCtx.node := by
   unfold TxIdsAgree
   decide
 
+/-- encoded lengths for the worked example (any function does: the wallet is level with the node) -/
+def exLen : Tx → Nat := fun t => 60 + 40 * t.outs.length
+
 /-- on the worked store ExistsTx finds the coinbase of b1 through its credit (c1, 0) … -/
-theorem exExists0 : existsTx exStore exCtx.node "w1" "c1" 0 =
+theorem exExists0 : existsTx exLen exStore exCtx.node "w1" "c1" 0 =
     some (⟨"c1", true, [⟨"", 0, 0⟩], [⟨"a1", 50, .std⟩]⟩, ⟨1, "b1"⟩) := by decide +kernel
 
 /-- … and nothing for an index the transaction does not have -/
-theorem exExists1 : existsTx exStore exCtx.node "w1" "c1" 1 = none := by decide +kernel
+theorem exExists1 : existsTx exLen exStore exCtx.node "w1" "c1" 1 = none := by decide +kernel
 
 def natScheme : Scheme Nat Nat Nat := ⟨fun _ _ _ => 0, fun k i => k + i, fun k i => k + i, id, fun _ => "", id⟩
 
 def backedOracle : Oracle := fun f σ =>
   if f = "utils.ParsePkScript" then parseAnswer (0 :: 0x20 :: List.replicate 32 0xab)
-  else if f = "w.txStore.ExistsTx" then existsTxAnswer E.notFound (existsTx exStore exCtx.node "w1" "c1" (σ (V "vout")))
+  else if f = "w.txStore.ExistsTx" then existsTxAnswer E.notFound (existsTx exLen exStore exCtx.node "w1" "c1" (σ (V "vout")))
   else if f = "w.txStore.ExistUnminedTx" then existUnminedAnswer E.notFound (AMap.get exStore.pending "c1")
   else if f = "strings.Split(s, \".\")" then [(Dec.splitDot [0x31, 0x2e, 0x35]).length]
   else if f = "u.String" then [(Dec.render (5 + MW.Model.Amount.perMass)).length]
@@ -55,7 +58,7 @@ def backedOracle : Oracle := fun f σ =>
 
 theorem backedOracle_backed : Backed backedOracle where
   script := fun _ => ⟨0 :: 0x20 :: List.replicate 32 0xab, by simp [backedOracle]⟩
-  ledger := ⟨fun σ => ⟨exCtx, exStore, exChain, "w1", "c1", exInv, exValid, exIds, by simp [backedOracle]⟩,
+  ledger := ⟨fun σ => ⟨exCtx, exStore, exChain, "w1", "c1", exLen, exInv, exValid, exIds, by simp [backedOracle]⟩,
     fun _ => ⟨exStore, "c1", by simp [backedOracle]⟩⟩
   amount := ⟨fun _ => ⟨[0x31, 0x2e, 0x35], by simp [backedOracle]⟩, fun _ => ⟨5, by simp [backedOracle]⟩⟩
   keystore := {
